@@ -241,21 +241,24 @@ def judge(model, scen, out):
         execs_by_class.setdefault(canon([int(p[0][1:]), int(p[1]), None if p[2] == "None" else int(p[2])]), 0)
         execs_by_class[canon([int(p[0][1:]), int(p[1]), None if p[2] == "None" else int(p[2])])] += 1
     info["exec_by_class"] = execs_by_class
-    # re-execution after completion (C09), from the linearised trace: a call handed to a worker process after a future
-    # of the same key had already received its result
+    # re-execution after completion (C09), from the linearised trace: a call SUBMITTED after a future of the same key had
+    # already received its result, and nevertheless handed to a worker process
     for run in out["runs"]:
-        completed = set()
-        cur = {}
+        completed_at, put_at, sent, cur = {}, {}, set(), {}
         for ev in run["events"]:
             th = ev.get("th", "")
-            if ev["op"] == "get" and ev.get("kind") == "task" and th.startswith("worker:"):
+            if ev["op"] == "put" and ev.get("kind") == "task" and ev.get("i") is not None and ev["i"] not in put_at:
+                put_at[ev["i"]] = ev["n"]
+            elif ev["op"] == "get" and ev.get("kind") == "task" and th.startswith("worker:"):
                 cur[th] = ev["i"]
             elif ev["op"] == "set_result" and th.startswith("worker:") and ev["i"] in keys:
-                completed.add(keys[ev["i"]])
-            elif ev["op"] == "send" and ev.get("kind") == "task" and th.startswith("worker:"):
-                i = cur.get(th)
-                if i is not None and keys.get(i) in completed:
-                    oracles.append({"oracle": "cache_reexecution_after_completion", "i": i, "key": keys.get(i)})
+                completed_at.setdefault(keys[ev["i"]], ev["n"])
+            elif ev["op"] == "send" and ev.get("kind") == "task" and th.startswith("worker:") and cur.get(th) is not None:
+                sent.add(cur[th])
+        for j in sorted(sent):
+            k = keys.get(j)
+            if k in completed_at and put_at.get(j, -1) > completed_at[k]:
+                oracles.append({"oracle": "cache_reexecution_after_completion", "i": j, "key": k})
     if diff is None:
         keyids = {k: n for n, k in enumerate(sorted(set(keys.values())))}
         valids = {v: n for n, v in enumerate(sorted(set(expected.values())))}
